@@ -81,7 +81,7 @@ def itemJson : Item → Json
 def parseFaults (j : Json) : Faults :=
   match j.getObjVal? "f" with
   | .ok f => { begin := optBool f "begin", lock := optBool f "lock", commit := optBool f "commit",
-               rollback := optBool f "rollback", sql := optNat f "sql", rows := optNat f "rows" }
+               commitTop := optBool f "commitTop", rollback := optBool f "rollback", sql := optNat f "sql", rows := optNat f "rows" }
   | .error _ => { rows := 0 }
 
 def parseOp (j : Json) : Except String Op := do
